@@ -116,24 +116,25 @@ Proof. exact count_is_ledger_length_every_schedule. Qed.
 Theorem C16_returned_drains_are_logged : forall cap ps sched,
   let c := fst (exec step site (init_config cap ps) sched) in
   forall u x d, nth_error (snd c) u = Some x -> In (MConsume d) (results x) ->
-                exists W St, In (d, W, St) (glog (fst c)).
+                exists W St k, In (d, W, St, k) (glog (fst c)).
 Proof. exact returned_drains_are_logged. Qed.
 
 (* THE concurrent clause.  Every schedule, thread count and program in which no 1606 step retired a
    side with a push in flight on it ([late] clear): for every completed drain d, with
    St = the values of the pushes that STARTED (1601) on its side since that side's previous count
    reset and W = the same values in the order of their fetch_adds (1602):
-   the count it read is |St|; len = min(|St|, cap); it yielded at most len values, all of them
-   values of St, and exactly the first ones of W if |St| <= cap; sample rate 1 if |St| <= cap else
+   the count it read is |St|; len = min(|St|, cap); it yielded exactly len values (min(k, len) if
+   the callback stops after k), all of them values of St, and exactly the first ones of W if
+   |St| <= cap (so all of St in fetch_add order for a full read); sample rate 1 if |St| <= cap else
    cap/|St|.  (The reset at 1609 empties both lists: the next window of the side starts empty.) *)
 Theorem C16_concurrent_accounting_except_late_push : forall cap ps sched,
   let c := fst (exec step site (init_config cap ps) sched) in
   late (fst c) = false ->
-  forall d W St, In (d, W, St) (glog (fst c)) ->
+  forall d W St k, In (d, W, St, k) (glog (fst c)) ->
     Permutation St W /\
     d_unsampled d = N.of_nat (length St) /\
     d_len d = N.min (d_unsampled d) (N.of_nat cap) /\
-    N.of_nat (length (d_vals d)) <= d_len d /\
+    N.of_nat (length (d_vals d)) = takeof k (d_len d) /\
     (forall v, In v (d_vals d) -> In v St) /\
     (d_unsampled d <= N.of_nat cap -> d_vals d = firstn (length (d_vals d)) W) /\
     sample_rate d = (if d_unsampled d <=? N.of_nat cap then (1, 1) else (N.of_nat cap, d_unsampled d)).
@@ -144,11 +145,11 @@ Proof. exact accounting_except_late_push. Qed.
 Theorem C16_concurrent_accounting_outside_known_class : forall cap progs sched,
   known_class (CThr cap progs sched) = None ->
   let c := fst (exec_full step site rr_fuel (init_config (N.to_nat cap) progs) (map N.to_nat sched)) in
-  forall d W St, In (d, W, St) (glog (fst c)) ->
+  forall d W St k, In (d, W, St, k) (glog (fst c)) ->
     Permutation St W /\
     d_unsampled d = N.of_nat (length St) /\
     d_len d = N.min (d_unsampled d) cap /\
-    N.of_nat (length (d_vals d)) <= d_len d /\
+    N.of_nat (length (d_vals d)) = takeof k (d_len d) /\
     (forall v, In v (d_vals d) -> In v St) /\
     (d_unsampled d <= cap -> d_vals d = firstn (length (d_vals d)) W) /\
     sample_rate d = (if d_unsampled d <=? cap then (1, 1) else (cap, d_unsampled d)).
